@@ -1,5 +1,6 @@
 (* C07 -- a reloaded scikit-learn estimator is the same model (partial: see the premises). *)
 From Skv Require Import PyStr Json Node GetTree Unsafe Estimators EstimatorsFacts.
+From Skv Require Import CodecGuards CodecWitness CodecShareFacts CodecFacts CodecRootFacts EstimatorsCodecFacts.
 From Gen Require Import Snapshot.
 
 (* REDUCTION.  For every class, every state: if (premises, all visible)
@@ -61,6 +62,140 @@ Proof.
            name_of resolve enc dec enc_args dec_args iso iso_args Hp Hr Hc Ha Hg e).
 Qed.
 Print Assumptions C07_reduction_reduce.
+
+(* ------------------------------------------------------------------ the reduction instantiated with the codec model *)
+(* per-run obligation: get_tree selects, at the current protocol, the node class the model assumes for every loader of the
+   proved fragment (ObjectNode and ConstructorFromReduceNode included) *)
+Theorem C07_loaders_registered : reg_ok Snapshot.registry Snapshot.current = true.
+Proof. vm_compute. reflexivity. Qed.
+Print Assumptions C07_loaders_registered.
+
+(* THE ESTIMATOR AS SKOPS SEES IT.  An estimator is the value `PObj id m c HKNone [] OKState st`: its class name (m, c) and the
+   state st it hands out (__getstate__(), else __dict__ -- for a scikit-learn estimator the dict of its parameters and fitted
+   attributes plus "_sklearn_version").  For EVERY class name that resolves at load (and from which the loader derives no hidden
+   payload: not frozenset / deque) and EVERY state of the proved C05 fragment -- scalars, nested containers, numpy arrays and
+   scalars, sparse matrices, RNGs, functions, and again user objects: nested estimators, pipelines; arbitrary sharing --
+   loads(dumps(estimator)) is the estimator itself: the loader resolves the same class name, builds cls.__new__(cls) and hands
+   __setstate__ (or __dict__.update) a state EQUAL to the one the object gave, identity labels (sharing) included.
+   c05_guard = the fragment && one label denotes one object && nesting depth below the fuel (decidable). *)
+Theorem C07_estimator_roundtrip :
+  forall (F : cfacts) (D : denv) (base : Z) (id : Z) (m c : pstr) (st : pval),
+    dn_cur D = Snapshot.current -> facts_sane F = true ->
+    c05_guard F D base (PObj id m c HKNone [] OKState st) = true ->
+    roundtrip Snapshot.registry Snapshot.current F D base (PObj id m c HKNone [] OKState st)
+    = Ok (PObj id m c HKNone [] OKState st).
+Proof.
+  intros F D base id m c st H1 H2 H3.
+  exact (estimator_roundtrip Snapshot.registry Snapshot.current F D base H1 C07_loaders_registered H2 id m c st H3).
+Qed.
+Print Assumptions C07_estimator_roundtrip.
+
+(* ... and the state of an estimator of the fragment is itself a value of the fragment (so that the sigma type of states
+   below is what estimators hand out), its class a resolvable one *)
+Theorem C07_estimator_state_in_fragment :
+  forall (F : cfacts) (D : denv) (base : Z) (id : Z) (m c : pstr) (st : pval),
+    c05_guard F D base (PObj id m c HKNone [] OKState st) = true ->
+    c05_guard F D base st = true /\ plain_cls F m c = true.
+Proof. intros F D base id m c st H. split; [exact (guard_obj_state F D base id m c st H)|exact (guard_obj_cls F D base id m c _ st H)]. Qed.
+Print Assumptions C07_estimator_state_in_fragment.
+
+(* THE CODEC PREMISE DISCHARGED.  With
+     state := fstate F D base = { v : pval | c05_guard F D base v = true }      the states of the proved fragment
+     wire  := res archive                                                        what dumps returns
+     enc   := fenc = dumps_model D base                                          object_get_state's get_state(attrs), as a dump
+     dec   := fdec = loads_model on that archive (accepted when in the fragment)  get_tree + construct
+     iso   := fiso = equality of the labelled values (types, structure, contents, sharing)
+   the premise `codec` of C07_reduction holds for EVERY state: it is C05_roundtrip_partial. *)
+Theorem C07_codec_premise_on_fragment :
+  forall (F : cfacts) (D : denv) (base : Z),
+    dn_cur D = Snapshot.current -> facts_sane F = true ->
+    forall s : fstate F D base,
+    exists s', fdec Snapshot.registry Snapshot.current F D base (fenc F D base s) = Some s' /\ fiso F D base s s'.
+Proof.
+  intros F D base H1 H2.
+  exact (codec_premise_on_fragment Snapshot.registry Snapshot.current F D base H1 C07_loaders_registered H2).
+Qed.
+Print Assumptions C07_codec_premise_on_fragment.
+
+(* STATE FIDELITY (partial: the states of the fragment; the numerics of the methods stay an oracle).  C07_reduction with the codec
+   premise discharged.  For every set of classes `cls` with names `name_of`, every estimator e = (class, state in the fragment):
+   if  - the class is importable under its saved name                                   [resolve_name]
+       - the class honours its pickle contract: __setstate__ / __dict__.update on a fresh instance, given a state equal to
+         what __getstate__ / __dict__ handed out, restores the estimator's state          [getset_contract -- the class's, not skops']
+       - the methods are functions of class and state                                    [method_pure: exercised by the bitwise tests]
+   then what skops rebuilds (ObjectNode: gettype(name); cls.__new__(cls); __setstate__(loads(dumps(state)))) has the same class,
+   an EQUAL state (as labelled value: same types, contents and sharing), and every method gives the same output on every input. *)
+Theorem C07_state_fidelity_partial :
+  forall (F : cfacts) (D : denv) (base : Z),
+    dn_cur D = Snapshot.current -> facts_sane F = true ->
+  forall (cls name args input output : Type)
+         (method : cls -> fstate F D base -> input -> output) (empty : cls -> fstate F D base)
+         (getstate : cls -> fstate F D base -> fstate F D base)
+         (setstate : cls -> fstate F D base -> fstate F D base -> fstate F D base)
+         (construct : cls -> args -> fstate F D base) (name_of : cls -> name) (resolve : name -> option cls)
+         (dec_args : fwire -> option args),
+    (forall c s s' x, fval F D base s = fval F D base s' -> method c s x = method c s' x) ->
+    (forall c, resolve (name_of c) = Some c) ->
+    (forall c s a, fval F D base (getstate c s) = fval F D base a -> fval F D base s = fval F D base (setstate c (empty c) a)) ->
+    forall e : est cls (fstate F D base),
+    exists e', load cls name (fstate F D base) args fwire empty setstate construct resolve
+                    (fdec Snapshot.registry Snapshot.current F D base) dec_args
+                    (dump_object cls name (fstate F D base) fwire getstate name_of (fenc F D base) e) = Some e'
+      /\ e_cls _ _ e' = e_cls _ _ e /\ fval F D base (e_state _ _ e) = fval F D base (e_state _ _ e')
+      /\ forall x, method (e_cls _ _ e') (e_state _ _ e') x = method (e_cls _ _ e) (e_state _ _ e) x.
+Proof.
+  intros F D base H1 H2 cls name args input output method empty getstate setstate construct name_of resolve dec_args Hp Hr Hc e.
+  exact (state_fidelity Snapshot.registry Snapshot.current F D base H1 C07_loaders_registered H2
+           cls name args input output method empty getstate setstate construct name_of resolve dec_args Hp Hr Hc e).
+Qed.
+Print Assumptions C07_state_fidelity_partial.
+
+(* non-vacuity: a LogisticRegression-shaped estimator (parameter C, coef_ / classes_ / n_iter_ arrays, the version string) and a
+   Pipeline-shaped one (steps = list of (str, estimator) tuples; the final estimator is ALSO reachable from a second place: one
+   object, two occurrences) satisfy the guard, and the model round trip -- computed through dumps_model / get_tree / construct by
+   vm_compute -- returns the estimator itself; the shared estimator is written once and referenced *)
+Definition w_logreg_state (id : Z) : pval :=
+  pdict (id + 1) [(kstr "C", PScalar (id + 2) (SFloat (s "1.0")));
+                  (kstr "coef_", PArr (id + 3) false (s "numpy") (s "ndarray") (s "tok-coef-f8-1x4"));
+                  (kstr "classes_", PArr (id + 4) false (s "numpy") (s "ndarray") (s "tok-classes-i8-2"));
+                  (kstr "n_iter_", PArr (id + 5) false (s "numpy") (s "ndarray") (s "tok-niter-i4-1"));
+                  (kstr "_sklearn_version", pstr_ (id + 6) "1.9.1")].
+Definition w_logreg (id : Z) : pval :=
+  PObj id (s "sklearn.linear_model._logistic") (s "LogisticRegression") HKNone [] OKState (w_logreg_state id).
+Definition w_pipeline : pval :=
+  let sc := PObj 20 (s "sklearn.preprocessing._data") (s "StandardScaler") HKNone [] OKState
+              (pdict 21 [(kstr "with_mean", PScalar 22 (SBool true)); (kstr "mean_", PArr 23 false (s "numpy") (s "ndarray") (s "tok-mean"));
+                         (kstr "n_samples_seen_", PArr 24 true (s "numpy") (s "int64") (s "tok-30")); (kstr "_sklearn_version", pstr_ 25 "1.9.1")]) in
+  let lr := w_logreg 30 in
+  PObj 10 (s "sklearn.pipeline") (s "Pipeline") HKNone [] OKState
+    (pdict 11 [(kstr "steps", plist 12 [ptuple 13 [pstr_ 14 "scaler"; sc]; ptuple 15 [pstr_ 16 "clf"; lr]]);
+               (kstr "memory", PScalar 17 SNone); (kstr "verbose", PScalar 18 (SBool false));
+               (kstr "best_", lr);
+               (kstr "_sklearn_version", pstr_ 19 "1.9.1")]).
+
+Example C07_estimator_nonvacuous :
+  forallb (fun w => c05_guard wf (wd Snapshot.current) wbase w && supported wf w
+                    && match roundtrip Snapshot.registry Snapshot.current wf (wd Snapshot.current) wbase w with
+                       | Ok w' => pval_eqb w' w | Raise _ => false end)
+    [w_logreg 1; w_pipeline] = true
+  /\ facts_sane wf = true
+  /\ (do a <- dumps_model (wd Snapshot.current) wbase w_pipeline; Ok (map fst (a_members a)))
+     = Ok [s "23.npy"; s "24.npy"; s "33.npy"; s "34.npy"; s "35.npy"].
+Proof. repeat split; vm_compute; reflexivity. Qed.
+
+(* the sigma type of states is inhabited by the state dict of that estimator, and the discharged premise computes on it *)
+Example C07_codec_premise_nonvacuous :
+  exists s0 : fstate wf (wd Snapshot.current) wbase,
+    fval _ _ _ s0 = w_logreg_state 1
+    /\ exists s', fdec Snapshot.registry Snapshot.current wf (wd Snapshot.current) wbase (fenc _ _ _ s0) = Some s'
+                  /\ fval _ _ _ s' = fval _ _ _ s0.
+Proof.
+  assert (Hs : c05_guard wf (wd Snapshot.current) wbase (w_logreg_state 1) = true) by (vm_compute; reflexivity).
+  set (s0 := exist (fun v => c05_guard wf (wd Snapshot.current) wbase v = true) (w_logreg_state 1) Hs).
+  exists s0. split; [reflexivity|].
+  destruct (C07_codec_premise_on_fragment wf (wd Snapshot.current) wbase eq_refl eq_refl s0) as [s' [Hd Hi]].
+  exists s'. split; [exact Hd|symmetry; exact Hi].
+Qed.
 
 (* non-vacuity of the premises: booleans as states, identity codec *)
 Example C07_reduction_premises_satisfiable :
